@@ -17,7 +17,7 @@ base=/dev/shm; [ -d "$base" ] && [ -w "$base" ] || base="${TMPDIR:-/tmp}"
 ST="$(mktemp -d "$base/verif-selftest.XXXXXX")"; trap 'rm -rf "$ST"' EXIT
 rc=0
 PROPS="C07 C08 C09 C10 C11 C12 C13 C14 C15 C16 C17 C18 C19 C20"
-I_PROPS=" C10 C14 C15 C16 C18 C19 C20 "
+I_PROPS=" C10 C14 C15 C16 C17 C18 C19 C20 "
 
 determinism() {
   "$VERIF/check" build N "$ST" || exit 2
